@@ -18,7 +18,8 @@ enum Assoc { A_NONE = 0, A_LTOR = 1, A_RTOL = 2 };
 enum FtorKind { F_DEFAULT = 0, F_PLAIN = 1, F_CTX = 2,
                 F_ELEMENT = 3,        // ftors::_eN: the N-th argument passes through (RuleSpec::eidx)
                 F_CREATE_LIST = 4,    // ftors::create<std::vector<V>>
-                F_EMPLACE_BACK = 5 }; // ftors::emplace_back<1,2>: argument 2 appended to the list in argument 1
+                F_EMPLACE_BACK = 5,   // ftors::emplace_back<1,2>: argument 2 appended to the list in argument 1
+                F_TOKREF = 6 };       // functor (const Payload& t) -> const Payload& { return t; }: the value is built from the reference
 
 struct TermSpec
 {
